@@ -33,6 +33,7 @@ inductive Instr where
   | load (t : VT) (width : Nat) (signed : Bool) (off : Nat)
   | store (width : Nat) (off : Nat)
   | memSize | memGrow
+  | memCopy | memFill
   | drop | select | unreachable | ret
   | br (l : Nat) | brIf (l : Nat) | brTable (ls : List Nat) (d : Nat)
   | call (f : Nat) | callIndirect (ti : Nat)
@@ -208,6 +209,23 @@ def execInstr (m : Module) : Nat → Instr → Frame → Store → Ctl × Frame 
           (.next, { fr with stack := cur :: s },
             { st with mem := st.mem ++ ByteArray.mk (Array.replicate (d * pageSize) 0) })
         else (.next, { fr with stack := (2 ^ 32 - 1) :: s }, st)
+      | _ => (.trap "stack", fr, st)
+    | .memCopy =>
+      match fr.stack with
+      | n :: src :: dst :: s =>
+        if src + n > st.mem.size || dst + n > st.mem.size then (.trap "oob-memory", fr, st)
+        else
+          let bytes := (List.range n).map (fun i => st.mem.get! (src + i))
+          let mem := (bytes.zipIdx).foldl (fun mem (b, i) => mem.set! (dst + i) b) st.mem
+          (.next, { fr with stack := s }, { st with mem := mem })
+      | _ => (.trap "stack", fr, st)
+    | .memFill =>
+      match fr.stack with
+      | n :: v :: dst :: s =>
+        if dst + n > st.mem.size then (.trap "oob-memory", fr, st)
+        else
+          let mem := (List.range n).foldl (fun mem i => mem.set! (dst + i) (UInt8.ofNat (v % 256))) st.mem
+          (.next, { fr with stack := s }, { st with mem := mem })
       | _ => (.trap "stack", fr, st)
     | .drop =>
       match fr.stack with
